@@ -934,6 +934,15 @@ def C12():
         # argument checks and the default boundary table (shared with C11)
         total += r_reg.run_jobs(chk, u, "R-REG.val", _jobs("r_reg_val", "interpolate_suite", range(2, 4), nmax=3,
                                                            orders=(1, 2, 3)))
+    # orders 5 (and 6 in the thorough tier): factorial factors up to 6!, boundary derivatives up to the order
+    uh = F.load(HIGH_UNIT)
+    chk.units.append(HIGH_UNIT)
+    total += r_reg.run_jobs(chk, uh, "R-REG.sys", [
+        ("bsv.r_reg_val", "interp_system_suite", dict(nmax=3, orders=(o,), ns=[m], spacings=(1, 2, 3, 5, 7, 11, 13, 17)))
+        for o in ((5, 6) if thorough else (5,)) for m in (2, 3)])
+    total += r_reg.run_jobs(chk, uh, "R-REG.val", _jobs("r_reg_val", "interpolate_suite", range(2, 4), nmax=3,
+                                                        orders=(5,)))
+    chk.note("high_orders", HIGH_NOTE)
     chk.note("regions_evaluated", total)
     chk.floor("R-REG.sys", chk.rules["R-REG.sys"]["instances"], 1, "(function, clause) obligations on interpolate")
     if total < 800:
